@@ -207,7 +207,17 @@ func (p *simPeer) String() string                      { return fmt.Sprintf("sim
 func (p *simPeer) Send(b bpv7.Bundle) error {
 	var buf bytes.Buffer
 	rec := &sendRec{peer: p.ps.idx, inst: p, tInvoke: time.Now()}
-	if err := b.MarshalCbor(&buf); err != nil {
+	// In race-detector runs the serialisation is ordered by a harness lock: the per-peer goroutines
+	// of one forward() all serialise the same shared blocks (MarshalCbor writes the CRC into the
+	// block), which the detector reports at once and which would mask the races C19 is about.
+	if p.n.raceBurst {
+		simMarshalMu.Lock()
+	}
+	err := b.MarshalCbor(&buf)
+	if p.n.raceBurst {
+		simMarshalMu.Unlock()
+	}
+	if err != nil {
 		rec.parseErr = fmt.Errorf("marshal: %v", err)
 	}
 	rec.wire = append([]byte(nil), buf.Bytes()...)
@@ -329,6 +339,7 @@ type nodeSim struct {
 	serialNo   int
 
 	retryEvery time.Duration
+	raceBurst  bool
 	noReportJudge bool
 	dst        *dtlsrState
 	pst        *prophetState
@@ -342,6 +353,7 @@ type nodeSim struct {
 }
 
 var simCurrent *nodeSim
+var simMarshalMu sync.Mutex
 var simHookMu sync.Mutex
 
 func (n *nodeSim) routingConf() RoutingConf {
@@ -452,6 +464,25 @@ func (n *nodeSim) settle() {
 			n.sched.SetFree(true)
 			for _, t := range parked {
 				n.sched.Release(t, nil)
+			}
+			continue
+		}
+		if n.raceBurst && len(parked) > 1 {
+			// race-detector windows (C19 crash clause): release everything that is parked in one go, so that
+			// the released goroutines are not ordered by the scheduler's own synchronisation
+			n.res.Probe("race_window")
+			for _, t := range parked {
+				if rec, ok := t.Data.(*sendRec); ok {
+					out := n.decideSend(rec)
+					rec.outcome, rec.tDone, rec.doneEpoch = out, time.Now(), n.epoch
+					n.onSendDone(rec)
+					n.sched.Release(t, out)
+				} else {
+					if t.Point == "store.cron" && t.Key == "dtlsr_recompute" && n.algo == "prophet" {
+						n.prophetOnAgeTick()
+					}
+					n.sched.Release(t, "go")
+				}
 			}
 			continue
 		}
@@ -742,6 +773,7 @@ func runNodeCase(c *simk.Case) *simk.Result {
 	n.algo = c.CfgS("algo", "epidemic")
 	n.focus = c.CfgS("focus", "")
 	n.concurrent = c.CfgB("concurrent")
+	n.raceBurst = os.Getenv("VERIF_RACE") != ""
 	n.failRate = c.CfgF("fail_rate", 0.2)
 	n.retryEvery = 10 * time.Second
 	if hs, ok := c.Cfg["hooks"].([]interface{}); ok {
